@@ -9,6 +9,7 @@ import (
 	"io"
 	"log"
 	"os"
+	"runtime"
 	"sort"
 
 	"verif/h/mc"
@@ -17,13 +18,16 @@ import (
 type checkFn func(r *mc.Report, thorough bool)
 
 type check struct {
-	level string
-	fn    checkFn
+	level   string
+	fn      checkFn
+	sharded bool // explore in 16 single-threaded processes
 }
 
 var checks = map[string]check{}
 
-func register(id, level string, fn checkFn) { checks[id] = check{level, fn} }
+func register(id, level string, fn checkFn) { checks[id] = check{level, fn, false} }
+
+func registerSharded(id, level string, fn checkFn) { checks[id] = check{level, fn, true} }
 
 func root() string {
 	if r := os.Getenv("VERIF_ROOT"); r != "" {
@@ -59,6 +63,10 @@ func main() {
 		os.Exit(3)
 	}
 	r := mc.NewReport(root(), id, tier, c.level)
-	c.fn(r, tier == "thorough")
+	if _, n := mc.Shard(); c.sharded && n == 1 && os.Getenv("VERIF_NOSHARD") == "" {
+		r.RunSharded(runtime.NumCPU(), os.Args[1:])
+	} else {
+		c.fn(r, tier == "thorough")
+	}
 	os.Exit(r.Finish())
 }
